@@ -97,6 +97,9 @@ add("c14__q__proc_len13_nv16", 70, "ign", "proc::one::<_, C14, 13, 1, 16, false>
 # C15: message type list 0..=3 symbolic, 29/30/31.. exact
 for n in [12, 13]:
     add("c15__q__proc_len%d_nt3" % n, 70, "ign", "proc::one::<_, C15, %d, 3, 1, false>" % n)
+# smallest configuration (0 or 1 types): still decides when a change makes the response length depend on
+# the list *contents* — the larger instances then run into the time limit (C15-E: INCONCLUSIVE, not a verdict)
+add("c15__q__proc_len12_nt1", 70, "ign", "proc::one::<_, C15, 12, 1, 1, false>")
 for nt in [29, 30]:
     add("c15__q__proc_len12_nt%d" % nt, 70, "ign", "proc::one::<_, C15, 12, %d, 1, true>" % nt)
 for nt in list(range(4, 29)):
